@@ -1,7 +1,7 @@
 #!/bin/sh
-# tools/seedtest.sh <seeded-dir> [tier]  — run the property's check against a scratch worktree of /repo with the
-# seeded change applied (never /repo itself), with evidence redirected, and print the verdict.
-# Also confirms: the patch applies, the pinned suite passes with it, the demonstration fails with it and passes without it.
+# tools/seedtest.sh <seeded-dir> [tier]  — confirm a seeded change and run the property's check against it.
+# Uses a scratch worktree of /repo (never /repo itself), evidence redirected to work/seed-evidence.
+# Prints one summary line; writes <seeded-dir>/result.json.
 set -u
 D=$(cd "$1" && pwd); TIER=${2:-quick}
 PID=$(/venv/bin/python -c "import json,sys; print(json.load(open('$D/meta.json'))['property'])")
@@ -10,9 +10,21 @@ git -C /repo worktree add -q --detach $WT HEAD || exit 2
 trap 'git -C /repo worktree remove --force $WT >/dev/null 2>&1' EXIT
 PP="$WT:$WT/pdks/Sky130:$WT/pdks/Gf180:$WT/pdks/Asap7"
 DEMO=$(ls $D/demo* | head -1)
-( cd $WT && PYTHONPATH=$PP PYTHONDONTWRITEBYTECODE=1 /venv/bin/python $DEMO >/dev/null 2>&1 ); echo "demo-clean rc=$?"
-git -C $WT apply $D/patch.diff || { echo "patch does not apply"; exit 2; }
-( cd $WT && PYTHONPATH=$PP PYTHONDONTWRITEBYTECODE=1 /venv/bin/python $DEMO >/dev/null 2>&1 ); echo "demo-changed rc=$?"
-/verif/tools/run_baseline.py $WT | head -3
-cd /verif && VERIF_EVIDENCE_DIR=/verif/work/seed-evidence VERIF_REPO=$WT ./check $PID --tier $TIER 2>/dev/null | grep -E "VIOLATION|KNOWN-FINDING" | head -5
-echo "check rc=$?"
+( cd $WT && PYTHONPATH=$PP PYTHONDONTWRITEBYTECODE=1 timeout 300 /venv/bin/python $DEMO >/dev/null 2>&1 ); DC=$?
+git -C $WT apply $D/patch.diff || { echo "$D: patch does not apply"; exit 2; }
+( cd $WT && PYTHONPATH=$PP PYTHONDONTWRITEBYTECODE=1 timeout 300 /venv/bin/python $DEMO >/dev/null 2>&1 ); DX=$?
+BL=$(/verif/tools/run_baseline.py $WT | head -1)
+LOG=/verif/work/seed-$(basename $D)-$TIER.log
+( cd /verif && VERIF_EVIDENCE_DIR=/verif/work/seed-evidence VERIF_REPO=$WT ./check $PID --tier $TIER > $LOG 2>&1 ); RC=$?
+V=$(grep -c '^VIOLATION' $LOG); NF=$(grep -c 'no-failing-input-found' $LOG)
+echo "$(basename $D) prop=$PID tier=$TIER demo_clean_rc=$DC demo_changed_rc=$DX [$BL] check_rc=$RC violations=$V no_input=$NF"
+/venv/bin/python - "$D" "$TIER" "$DC" "$DX" "$BL" "$RC" "$V" "$NF" "$LOG" <<'PY'
+import json,sys,os
+d,tier,dc,dx,bl,rc,v,nf,log=sys.argv[1:]
+p=os.path.join(d,"result.json")
+r=json.load(open(p)) if os.path.exists(p) else {}
+first=[l.strip() for l in open(log) if l.startswith("VIOLATION")][:2]
+r[tier]=dict(demo_clean_rc=int(dc),demo_changed_rc=int(dx),baseline=bl,check_rc=int(rc),violation_lines=int(v),no_failing_input_found=int(nf),first=first,
+             repo_head=os.popen("git -C /repo rev-parse --short HEAD").read().strip(),verif_head=os.popen("git -C /verif rev-parse --short HEAD").read().strip())
+json.dump(r,open(p,"w"),indent=1)
+PY
